@@ -36,6 +36,10 @@ type fakeOut struct {
 	// slow: the time a Send call takes (a serial port at 31250 baud, a busy USB hub). Only set in the
 	// workers on the virtual process clock, where the pause is exact and costs nothing.
 	slow time.Duration
+	// failFrom > 0: from the failFrom-th Send on the port refuses every message with an error (a device that was unplugged;
+	// the attempt is recorded all the same). What the library does with that port afterwards is not constrained; the
+	// other ports must not notice.
+	failFrom, n int
 }
 
 func (f *fakeOut) Open() error             { f.open = true; return nil }
@@ -50,6 +54,9 @@ func (f *fakeOut) Send(b []byte) error {
 	f.log.recs = append(f.log.recs, sendRec{s, now, f.id, append([]byte(nil), b...)})
 	if f.slow > 0 {
 		time.Sleep(f.slow)
+	}
+	if f.n++; f.failFrom > 0 && f.n >= f.failFrom {
+		return fmt.Errorf("fake-out-%d: device gone", f.id)
 	}
 	return nil
 }
@@ -68,7 +75,7 @@ func init() {
 			"'never early' is one-sided: the start instant is read before Play/MultiPlay is called, so machine load can only delay sends, never make the check fire",
 			"sysex events in tracks are not constrained (the statement speaks of channel messages and meta events)",
 		},
-		Require:         []string{"plays", "sends_observed", "same_tick_runs_ge_13", "cross_track_same_tick", "selections_proper_subset", "maps_without_default", "never_early_checks", "play_single_port", "replays_with_rerouted_map", "replays_with_another_map", "late_schedule_plays", "round_gap_plays", "selections_with_repeated_tracks", "selections_of_absent_tracks_only", "long_plays_on_virtual_clock", "slow_ports", "files_with_tempo_curves_over_32_changes", "files_with_tempo_events_in_two_tracks_and_same_tick_pairs", "undecodable_tempo_events", "plays_of_tracks_with_more_than_65536_messages"},
+		Require:         []string{"plays", "sends_observed", "same_tick_runs_ge_13", "cross_track_same_tick", "selections_proper_subset", "maps_without_default", "never_early_checks", "play_single_port", "replays_with_rerouted_map", "replays_with_another_map", "late_schedule_plays", "round_gap_plays", "selections_with_repeated_tracks", "selections_of_absent_tracks_only", "long_plays_on_virtual_clock", "slow_ports", "ports_that_refuse_every_message_from_some_send_on", "files_with_tempo_curves_over_32_changes", "files_with_tempo_events_in_two_tracks_and_same_tick_pairs", "undecodable_tempo_events", "plays_of_tracks_with_more_than_65536_messages"},
 		FakeTimeWorkers: 2,
 		Workers:         16,
 		Run:             runC12,
@@ -299,6 +306,10 @@ func runC12(c *mon.Ctx) {
 			ports := make([]*fakeOut, nports+1)
 			for p := range ports {
 				ports[p] = &fakeOut{id: p, log: log, open: true}
+				if p > 0 && nports > 1 && r.P(1, 10) {
+					ports[p].failFrom = 1 + r.Intn(6)
+					c.Count("ports_that_refuse_every_message_from_some_send_on", 1)
+				}
 				if slow && mon.FakeTime && r.P(1, 2) {
 					ports[p].slow = time.Duration(r.Pick(1, 5, 20, 100, 300)) * time.Millisecond
 					c.Count("slow_ports", 1)
@@ -351,7 +362,13 @@ func runC12(c *mon.Ctx) {
 			}) {
 				continue
 			}
-			if err != nil {
+			refusing := map[int]bool{}
+			for _, po := range ports {
+				if po.failFrom > 0 && po.n >= po.failFrom {
+					refusing[po.id] = true
+				}
+			}
+			if err != nil && len(refusing) == 0 {
 				c.Violation("play-error", err.Error(), in, nil, err.Error())
 				continue
 			}
@@ -434,7 +451,7 @@ func runC12(c *mon.Ctx) {
 			}
 			if !bad && len(seen) != len(want) {
 				for _, e := range want {
-					if seen[string(e.msg)] == 0 {
+					if seen[string(e.msg)] == 0 && !refusing[wantPort[string(e.msg)]] {
 						c.Violation("missing-send", fmt.Sprintf("message % X of track %d (tick %d) was never sent; %d of %d expected messages arrived", e.msg, e.track, e.abs, len(seen), len(want)), in, len(want), len(seen))
 						break
 					}
